@@ -201,8 +201,20 @@ func optFieldType(o *OptNode) reflect.Type {
 
 func tagKV(k, v string) string { return k + ":" + strconv.Quote(v) }
 
+// truthy: the spellings of "true" in a boolean tag vary with the option's number (everything that is not empty, "false",
+// "no" or "0" counts as true).
+func truthy(i int) string {
+	if i < 0 {
+		i = -i
+	}
+	return []string{"true", "yes", "1", "on", "y"}[i%5]
+}
+
 func optTag(o *OptNode) string {
 	var t []string
+	if o.FieldAlias != "" {
+		t = append(t, tagKV("vid", itoa(o.idx)))
+	}
 	if o.Short != "" {
 		t = append(t, tagKV("short", o.Short))
 	}
@@ -213,13 +225,13 @@ func optTag(o *OptNode) string {
 		t = append(t, tagKV("base", strconv.Itoa(o.Base)))
 	}
 	if o.Optional {
-		t = append(t, tagKV("optional", "yes"))
+		t = append(t, tagKV("optional", truthy(o.idx+1)))
 	}
 	for _, v := range o.OptVals {
 		t = append(t, tagKV("optional-value", v))
 	}
 	if o.Required && !o.ReqField {
-		t = append(t, tagKV("required", "true"))
+		t = append(t, tagKV("required", truthy(o.idx)))
 	}
 	for _, v := range o.Defaults {
 		t = append(t, tagKV("default", v))
@@ -234,7 +246,7 @@ func optTag(o *OptNode) string {
 		t = append(t, tagKV("choice", v))
 	}
 	if o.Hidden {
-		t = append(t, tagKV("hidden", "yes"))
+		t = append(t, tagKV("hidden", truthy(o.idx+2)))
 	}
 	if o.NoUnquote {
 		t = append(t, tagKV("unquote", "false"))
@@ -243,7 +255,7 @@ func optTag(o *OptNode) string {
 		t = append(t, tagKV("ini-name", o.IniName))
 	}
 	if o.NoIni {
-		t = append(t, tagKV("no-ini", "yes"))
+		t = append(t, tagKV("no-ini", truthy(o.idx+3)))
 	}
 	if o.ValueName != "" {
 		t = append(t, tagKV("value-name", o.ValueName))
@@ -293,8 +305,20 @@ type plainInner struct{ X int }
 // command-level members: tag-declared sub-commands and positional args).
 func (b *Built) structFor(g *GroupNode, c *CmdNode) reflect.Type {
 	var fs []reflect.StructField
-	for _, o := range g.Opts {
+	direct, inl := splitInline(g)
+	for _, o := range direct {
 		fs = append(fs, reflect.StructField{Name: o.field, Type: optFieldType(o), Tag: reflect.StructTag(optTag(o))})
+	}
+	if len(inl) > 0 {
+		var ifs []reflect.StructField
+		for _, o := range inl {
+			ifs = append(ifs, reflect.StructField{Name: o.field, Type: optFieldType(o), Tag: reflect.StructTag(optTag(o))})
+		}
+		it := reflect.StructOf(ifs)
+		if g.Inline == "ptr" {
+			it = reflect.PtrTo(it)
+		}
+		fs = append(fs, reflect.StructField{Name: "In", Type: it})
 	}
 	fs = append(fs, reflect.StructField{Name: "Plain", Type: typeByName["string"]})
 	fs = append(fs, reflect.StructField{Name: "PlainPtr", Type: reflect.TypeOf((*plainInner)(nil))})
@@ -399,11 +423,25 @@ func (b *Built) structFor(g *GroupNode, c *CmdNode) reflect.Type {
 
 // bind records the addressable field values of a realised struct.
 func (b *Built) bind(v reflect.Value, g *GroupNode, c *CmdNode) {
-	for _, o := range g.Opts {
+	direct, inl := splitInline(g)
+	for _, o := range direct {
 		f := v.FieldByName(o.field)
 		b.optVal[o.idx-1] = f
 		b.opts[o.idx-1] = o
 		b.preset(o, f)
+	}
+	if len(inl) > 0 {
+		in := v.FieldByName("In")
+		if in.Kind() == reflect.Ptr {
+			in.Set(reflect.New(in.Type().Elem())) // the program's own struct: the library must keep it
+			in = in.Elem()
+		}
+		for _, o := range inl {
+			f := in.FieldByName(o.field)
+			b.optVal[o.idx-1] = f
+			b.opts[o.idx-1] = o
+			b.preset(o, f)
+		}
 	}
 	pl := v.FieldByName("Plain")
 	pl.SetString(sentinel)
@@ -672,19 +710,43 @@ func buildWith(t *Tree, popts flags.Options, presets bool, deferLate bool) (b *B
 	return b
 }
 
+// splitInline: the options declared as direct fields and those declared inside the untagged struct field.
+func splitInline(g *GroupNode) (direct, inl []*OptNode) {
+	if g.Inline == "" || g.InlineFrom < 0 || g.InlineFrom >= len(g.Opts) {
+		return g.Opts, nil
+	}
+	return g.Opts[:g.InlineFrom], g.Opts[g.InlineFrom:]
+}
+
+// nodeKey / optKey identify an option on both sides.  Go field names may repeat across nested groups (FieldAlias); such
+// an option carries an extra tag key vid:"<idx>" that the library ignores.
+func nodeKey(o *OptNode) string {
+	if o.FieldAlias != "" {
+		return "vid:" + itoa(o.idx)
+	}
+	return o.field
+}
+
+func optKey(fo *flags.Option) string {
+	if v := fo.Field().Tag.Get("vid"); v != "" {
+		return "vid:" + v
+	}
+	return fo.Field().Name
+}
+
 // applyFieldMarks sets what a declaration says through public fields rather than tags (Option.Required).
 func (b *Built) applyFieldMarks() {
 	if b.p == nil {
 		return
 	}
-	byField := map[string]*OptNode{}
+	byKey := map[string]*OptNode{}
 	for _, o := range b.opts {
 		if o != nil {
-			byField[o.field] = o
+			byKey[nodeKey(o)] = o
 		}
 	}
 	eachOption(b.p.Command, func(fo *flags.Option) {
-		if o := byField[fo.Field().Name]; o != nil && o.ReqField && o.Required {
+		if o := byKey[optKey(fo)]; o != nil && o.ReqField && o.Required {
 			fo.Required = true
 		}
 	})
